@@ -196,7 +196,7 @@ PROPS = {
     "C02": {
         "level": "exploration",
         "technique": "same bounded-exhaustive history enumeration as C01 with the sample-lifetime oracles: every held sample and loan is re-read after every step, loan addresses are compared with all chunks that still have a holder, self-undoing loan probes count free chunks",
-        "legs": [{"ws": "seq", "bin": "h_pubsub", "args": ["--prop", "C02"]}],
+        "legs": [{"ws": "seq", "bin": "h_pubsub", "args": ["--prop", "C02"]}, {"ws": "seq", "bin": "h_reqres", "args": ["--prop", "C02"]}],
         "rule": "see coverage.legs[0].rule",
         "assumptions": ["as C01 (sequential leg)", "request/response payload lifetime is covered by the h_reqres leg when registered"],
         "design_ref": "DESIGN.md §3.3, §4 C02",
@@ -206,7 +206,7 @@ PROPS = {
     "C08": {
         "level": "exploration",
         "technique": "same bounded-exhaustive history enumeration with saturation macro-operations and one-too-many probes after every step",
-        "legs": [{"ws": "seq", "bin": "h_pubsub", "args": ["--prop", "C08"]}],
+        "legs": [{"ws": "seq", "bin": "h_pubsub", "args": ["--prop", "C08"]}, {"ws": "seq", "bin": "h_reqres", "args": ["--prop", "C08"]}],
         "rule": "see coverage.legs[0].rule",
         "assumptions": ["publish-subscribe limits here; request-response limits in the h_reqres leg, wait-set attachment limit in C20, port/node limits in C17/C06 harnesses when registered", "limit values 1..3 (0 where accepted)"],
         "design_ref": "DESIGN.md §3.3, §4 C08",
@@ -222,5 +222,15 @@ PROPS = {
         "design_ref": "DESIGN.md §3.1, §4 C06",
         "level_text": "All schedules (preemption bound) of 2-3 nodes that create, open, open-or-create and drop the same service concurrently are executed on the real builder code: at most one creation succeeds, all live handles report the one configuration some creator asked for, every call returns a service or a documented contention error, the service exists while a handle lives, disappears with the last one and can then be created with other settings.",
         "level_note": "trusted: ixmc scheduler incl. mutex/clock model and the elision argument (DESIGN.md §3.1); bounded: 2-3 threads, one call each, PB 1 quick / 2 thorough, two patterns",
+    },
+    "C11": {
+        "level": "exploration",
+        "technique": "bounded-exhaustive enumeration of request-response histories (all sequences up to a depth, then breadth-first over distinct reference-model states) over an orthogonal array of configurations against a per-request stream model",
+        "legs": [{"ws": "seq", "bin": "h_reqres", "args": ["--prop", "C11"]}],
+        "rule": "see coverage.legs[0].rule",
+        "assumptions": ["single-threaded histories; 1-2 clients x 1-2 servers, max_active_requests 1..3, response buffer 1..2, overflow on/off for requests and responses, fire-and-forget on/off; local service quick, ipc added in thorough", "tree depth 5-7 quick / up to 9 thorough, frontier to depth 10 / 12", "ports use BackpressureStrategy::DiscardData (the default RetryUntilDelivered would spin in a single thread)"],
+        "design_ref": "DESIGN.md §3.3, §4 C11",
+        "level_text": "Every history of send/loan request, receive request, send/loan response, receive/release response, drop of pending response or active request, creation and drop of clients and servers up to the depth is executed on the real ports and compared after every call with a model of one response stream per (request, server): requests reach each connected server once and in order, responses arrive only through the pending response of their own request, in order, at most once; closing either end is observed by the other; nothing is delivered into a reused slot; limits hold.",
+        "level_note": "trusted: seqx engine, the stream model (written from the documentation); bounded as stated",
     },
 }
